@@ -239,7 +239,7 @@ func TestVerifC27(t *testing.T) {
 		c27script(rnd, a, b)
 	}
 	// rendering: texts whose runs stay at or below 14 lines (no elision)
-	rd := vNew("C27/linediff-render", "all pairs of texts of <= 4 lines over 2 words (exhaustive part) and seeded texts of <= 40 lines with runs of at most 14 changed lines", false, "LineDiff", "hunk.add", "hunk.writeTo")
+	rd := vNew("C27/linediff-render", "all pairs of texts of <= 4 lines over 2 words (exhaustive part) and seeded texts of <= 40 lines with runs of at most 14 changed lines, and one block of exactly 1..14 inserted, deleted or replaced lines with 0..4 context lines", false, "LineDiff", "hunk.add", "hunk.writeTo")
 	words := []string{"a", "b"}
 	small := c27seqs(4, 2)
 	toText := func(s []int) []string {
@@ -256,6 +256,40 @@ func TestVerifC27(t *testing.T) {
 		for _, b := range small {
 			rd.Case(true)
 			c27text(rd, toText(a), toText(b))
+		}
+	}
+	// the boundary of the elision rule: one changed block of exactly 1..14 lines (inserted, deleted or
+	// replaced) with 0..4 lines of context on either side must still be rendered in full
+	// (seeded change C27-r13m2 abbreviated blocks of exactly 14 lines)
+	for run := 1; run <= 14; run++ {
+		for ctx := 0; ctx <= 4; ctx++ {
+			for kind := 0; kind < 3; kind++ {
+				var left, right []string
+				for j := 0; j < ctx; j++ {
+					left = append(left, fmt.Sprintf("head%d", j))
+					right = append(right, fmt.Sprintf("head%d", j))
+				}
+				for j := 0; j < run; j++ {
+					if kind != 0 {
+						left = append(left, fmt.Sprintf("old%d", j))
+					}
+					if kind != 1 {
+						right = append(right, fmt.Sprintf("new%d", j))
+					}
+				}
+				for j := 0; j < ctx; j++ {
+					left = append(left, fmt.Sprintf("tail%d", j))
+					right = append(right, fmt.Sprintf("tail%d", j))
+				}
+				if len(left) == 0 {
+					left = []string{""}
+				}
+				if len(right) == 0 {
+					right = []string{""}
+				}
+				rd.Case(true)
+				c27text(rd, left, right)
+			}
 		}
 	}
 	lr := vNew("C27/linediff-long-runs", "seeded texts with a run of more than 14 inserted, deleted or unchanged-context lines (elision path of hunk.add)", false, "LineDiff", "hunk.add")
